@@ -588,10 +588,7 @@ func c14receive(c *ctx, r *rng, sp c14caseSpec, key [32]byte, recs []c14rec, ord
 			if head > 0 {
 				switch r.intn(4) {
 				case 0:
-					capacity = head - 1
-					if capacity == 0 {
-						capacity = 1
-					}
+					capacity = head - 1 // 0 for a 1-byte datagram: the empty buffer is a buffer too
 				case 1:
 					capacity = head
 				case 2:
@@ -599,7 +596,13 @@ func c14receive(c *ctx, r *rng, sp c14caseSpec, key [32]byte, recs []c14rec, ord
 				}
 			}
 			res := x.read(sid2, capacity)
-			if head > 0 && capacity < head && res != "short" {
+			if head > 0 && capacity == 0 && res == "data" {
+				// Stream.Read answers an empty buffer (0, nil) before asking the pipe: "a read buffer too small for the
+				// next datagram reports an error" fails for the 0-byte buffer (nothing is consumed: the drain below and the
+				// multiset monitor see the datagram come out whole afterwards)
+				o.V("C14 short-buffer-no-error zero-length-buffer", map[string]any{"tag": sp.tag, "cap": 0, "next_len": head, "result": "(0, nil)",
+					"replay": "unordered session; a 1-byte datagram pending on a stream; Stream.Read(make([]byte, 0))"})
+			} else if head > 0 && capacity < head && res != "short" {
 				o.V("C14 read buffer smaller than the next datagram did not report an error", map[string]any{"tag": sp.tag, "cap": capacity, "next_len": head, "result": res})
 				return false
 			}
@@ -755,6 +758,9 @@ func c14(c *ctx) {
 	c14udpReturn(c, r.fork())
 	for k := 0; k < 2; k++ {
 		c14system(c, k)
+	}
+	for k := 0; k < 16; k++ {
+		c14smallBuffers(c, k)
 	}
 	// (a) pipe scripts
 	nScripts, nOps, nConc := 3000, 40, 60
